@@ -174,9 +174,40 @@ func (w *World) verifyFunc(fn *ssa.Function) *FuncResult {
 		res.Outside = reason
 		return res
 	}
+	// replay information: the entry values of the parameters
+	var rin []NamedTerm
+	for i, p := range fn.Params {
+		switch a := args[i].(type) {
+		case *Term:
+			rin = append(rin, NamedTerm{Name: p.Name(), T: a, Typ: p.Type()})
+		case *PtrV:
+			if t, ok := st.old.cells[a.cell].(*Term); ok {
+				rin = append(rin, NamedTerm{Name: p.Name(), T: t, Typ: p.Type()})
+			}
+		default:
+			rin = append(rin, NamedTerm{Name: p.Name(), T: nil, Typ: p.Type()})
+		}
+	}
+	x.curReplay = &ReplayInfo{Fn: fn, Inputs: rin}
 	x.deadline = time.Now().Add(time.Duration(funcBudgetSec) * time.Second)
 	x.runBlock(st, fn.Blocks[0], nil, func(s2 *State, results []Value) {
 		res.Returns++
+		ri := &ReplayInfo{Fn: fn, Inputs: rin}
+		for i, r := range results {
+			if t := x.term(r); t != nil {
+				ri.Obs = append(ri.Obs, NamedTerm{Name: fmt.Sprintf("result%d", i), T: t, Typ: fn.Signature.Results().At(i).Type()})
+			}
+		}
+		if fn.Signature.Recv() != nil && len(fn.Params) > 0 {
+			if pv, ok := s2.frames[0].env[fn.Params[0]].(*PtrV); ok {
+				if t, ok := s2.cells[pv.cell].(*Term); ok {
+					ri.Obs = append(ri.Obs, NamedTerm{Name: "recv", T: t, Typ: fn.Params[0].Type()})
+				}
+			}
+		}
+		saveReplay := x.curReplay
+		x.curReplay = ri
+		defer func() { x.curReplay = saveReplay }()
 		for _, c := range invs {
 			g, err := evalInv(s2, c)
 			if err != nil {
